@@ -30,8 +30,11 @@ def warmup():
     pk = np.ones((5, 3), np.int64)
     pk[4] = 0
     om = np.zeros((1, 2))
-    properties.numbapkmerge(np.zeros(3, np.int64), pk, om, om, np.zeros((7, 1)), scale_factor=None)
-    properties.numbapkmerge(np.zeros(3, np.int64), pk, om, om, np.zeros((7, 1)), scale_factor=om + 1)
+    # through the table object, which sizes the accumulators itself (the kernel has no bounds checks)
+    t = properties.pks_table()
+    t.pk_props, t.glabel, t.nlabel = pk, np.zeros(3, np.int64), 1
+    t.pk2dmerge(om, om)
+    t.pk2dmerge(om, om, om + 1)
     properties.n_pk2d(pk[0], pk[1], pk[2], pk[3], pk[4], om, om)
 
 
